@@ -299,6 +299,23 @@ def finish(ctx: Ctx, proofs: dict) -> int:
                 "disagreements": ctx.disagreements[:10]})
             lines.append(f"VIOLATION property={ctx.prop} replay={path} no-failing-input-found")
         exit_code = 1
+    # 2b. extraction cross-check: a sample of the cases modelrun (extracted OCaml) answered is evaluated again inside Coq
+    from harness import coqeval
+
+    try:
+        xc = coqeval.run(24 if ctx.tier == "thorough" else 6)
+    except Exception as e:  # noqa: BLE001
+        xc = {"sampled_cases": 0, "agree": 0, "differ": [], "error": f"{type(e).__name__}: {e}"[:300]}
+    ctx.extra["extraction_crosscheck"] = {k: (v if k != "differ" else v[:5]) for k, v in xc.items()}
+    if xc.get("differ"):
+        if exit_code == 0:
+            path = write_replay(ctx, "extraction", {
+                "no_longer_checks": "extraction cross-check: the extracted OCaml model (ocaml/modelrun) and vm_compute on the "
+                                    "Gallina model disagree on a sampled case, so the correspondence run is not about the model "
+                                    "the theorems are about",
+                "disagreements": xc["differ"][:10]})
+            lines.append(f"VIOLATION property={ctx.prop} replay={path} no-failing-input-found")
+        exit_code = 1
     if not proofs.get("ok", False):
         if exit_code == 0:
             path = write_replay(ctx, "proof", {
